@@ -146,7 +146,7 @@ def replay_cmd(work, prop, path):
         print("VIOLATION property=%s replay=%s" % (prop, path))
         print(job.stderr[-1500:])
         return 1
-    vv = validate_many(work, job.trace_files, rep["invariants"])
+    vv = validate_many(work, [f for f in job.trace_files if os.path.getsize(f) > 0], rep["invariants"], module=rep.get("module", "TraceArt"))
     for x in vv:
         if x.error:
             raise Infra(x.error)
